@@ -15,6 +15,11 @@ CLAIMED = {
         note="np.fft is a parameter (inverse pair + Parseval are hypotheses, sampled); xarray metadata carrying and list-of-distances stacking are search-only; gradient_filter energy not claimed (|G| up to 2 by construction); real arithmetic, not IEEE.",
         technique="Lean 4 theorems (induction/omega on list rotations; trig identities over R) + differential correspondence with np.fft as parameter + group-law search on real code",
         ref="DESIGN.md §5 C17"),
+    "C18": dict(
+        text="Proof (Lean 4, reals): normalize gives mean exactly 1, is idempotent and scale-invariant; bg_correct is (raw-dark)/(bg-dark) wherever the denominator is positive and exactly 1 for an image over itself; the dead-pixel filter (model of where/interpolate_na/mean-skipna) leaves positive pixels untouched, maps an isolated interior zero to the mean of its 4 neighbours, an edge zero to the mean of its 2 edge neighbours, and refuses a dead corner; subimage's index window (Python round-half-even + slice clamping) keeps exactly lo..hi-1 when it fits; least-squares detrend removes any added plane exactly for sides >= 2 (normal-equation determinant n^2(n^2-1)/12 proved non-zero); Welford accumulator mean/variance equal the batch values for every push sequence and hence every order. Tied by correspondence (all six tools + Accumulator, Float, 1e-9..1e-12; crop windows exact).",
+        note="Centre-finder accuracy is empirical (search only, within 1 px on computed Mie holograms); scipy.signal.detrend and xarray.interpolate_na are externals whose modelled closed forms are sampled; metadata carrying is search-only; reals not IEEE.",
+        technique="Lean 4 theorems (field_simp/ring, induction over pushes, Finset sums) + differential correspondence + identity search incl. bounded-exhaustive crops",
+        ref="DESIGN.md §5 C18"),
 }
 
 NOT_YET = {}
